@@ -158,6 +158,19 @@ def run(ck):
         rt, dr = tagtable.reader_table(gi_r, "concordium_wasm::types::GlobalInit")
         inv = {v: k[0] for k, v in wt.items()}
         ck.ob("TAB", "GlobalInit", "tag-bijection", inv == {k: v[0] for k, v in rt.items()} and len(inv) == 2 and dr is True, "written %s / read %s; unknown rejected: %s" % (wt, rt, dr), gi_r.loc())
+        # the payload of every variant is parsed at the type it was written at (signed and unsigned LEB128 differ from the first
+        # negative value on): payload types written (everything but the tag bytes) == types parsed (minus the count and the tag)
+        wty = sorted(x for x in ((t["f"].get("self") or "") for (_, t) in gi_w.calls(r"output::Output::output$|Output>::output$")) if x != "u8")
+        rty = []
+        for (bi, t) in gi_r.calls(r"GetParseable::next$|GetParseable<.*>::next$|Parseable::parse$|Parseable<.*>::parse$"):
+            m = re.match(r"^std::result::Result<(.*), anyhow::Error>$", gi_r.locals[t["dest"][0]])
+            rty.append(m.group(1) if m else gi_r.locals[t["dest"][0]])
+        rest = list(rty)
+        for x in ("u32", "u8"):
+            if x in rest:
+                rest.remove(x)
+        ck.ob("SYM", "GlobalInit", "payload-parsed-at-the-written-type", sorted(rest) == wty and len(wty) == 2,
+              "payloads written as %s, parsed as %s (after the u32 count and the u8 tag)" % (wty, sorted(rest)), gi_r.loc())
 
     # import tags
     ref = json.load(open(SPEC)) if os.path.exists(SPEC) else {}
